@@ -268,6 +268,10 @@ func (a *adversary) opportunity(n *node) {
 	c := w.c
 	b := n.bft
 	view := b.View.Copy()
+	if c.Prop == "C14" && c.T.Chance(1, 3) {
+		a.actEvidence(n, view)
+		return
+	}
 	if a.plan != planChaos {
 		if c.T.Chance(1, 6) {
 			a.actElectionVoteSpray(n, view)
@@ -464,8 +468,28 @@ func (a *adversary) actEvidence(n *node, view *lib.View) {
 		case 1: // same certificate twice
 			y = x
 			kinds = append(kinds, "same-payload-pair")
-		case 2: // cross-view: another round / phase / root height
-			y = cands[c.T.Intn(len(cands))]
+		case 2: // near miss: same height and phase, different payload, but another round or root height, sharing signers
+			for _, z := range cands {
+				zh, xh := z.payload.Header, x.payload.Header
+				if z == x || zh.Height != xh.Height || zh.Phase != xh.Phase || viewKey(zh) == viewKey(xh) || bytes.Equal(z.payload.BlockHash, x.payload.BlockHash) {
+					continue
+				}
+				shared := false
+				for i := range z.signers {
+					if x.signers[i] {
+						shared = true
+					}
+				}
+				if shared {
+					y = z
+					if zh.Round != xh.Round && zh.RootHeight == xh.RootHeight {
+						break
+					}
+				}
+			}
+			if y == nil {
+				y = cands[c.T.Intn(len(cands))]
+			}
 			kinds = append(kinds, "cross-view-pair")
 		case 3: // cross-view but with the header of A forged onto B's payload (signature will not verify)
 			z := cands[c.T.Intn(len(cands))]
@@ -645,6 +669,25 @@ func (a *adversary) planPropose(n *node, m *bft.Message) bool {
 	alt := a.cloneProposeWithNewBlock(n, m, true)
 	if alt == nil {
 		return false
+	}
+	// bait variant: attach the certificate some correct replica is locked on as HighQc although the
+	// proposal carries a DIFFERENT block (the justification does not match the proposal)
+	if c.T.Chance(1, 2) {
+		for _, hn := range w.honest() {
+			if hq := hn.bft.HighQC; hq != nil && hn.chainHeight() == m.Header.Height && hq.Signature != nil {
+				alt.HighQc = &lib.QuorumCertificate{Header: hq.Header, Block: hq.Block, BlockHash: hq.BlockHash, Results: hq.Results, ResultsHash: hq.ResultsHash,
+					ProposerKey: hq.ProposerKey, Signature: hq.Signature}
+				if c.T.Chance(1, 2) && hq.Results != nil {
+					// ... and reuse the locked proposal's results, so that only the block differs
+					alt.Qc.Results, alt.Qc.ResultsHash = hq.Results, hq.ResultsHash
+					if kb, ok := a.blocks[string(alt.Qc.BlockHash)]; ok {
+						kb.results = hq.Results
+					}
+				}
+				c.Fault("byz_propose_block_with_mismatched_highqc")
+				break
+			}
+		}
 	}
 	a.follow[string(alt.Qc.BlockHash)] = true
 	c.Fault("byz_propose_fresh_block_ignoring_locks")
